@@ -16,7 +16,8 @@ def execOp (rest : List String) (withMarks : Bool) : String :=
     match parseExtras tail {} with
     | none => "bad-op"
     | some ex =>
-      match infer ex.jetTy p false, cmrs (fun n => some ((ex.jetCmr n).getD 0)) p with
+      let needCmr := p.any fun nd => match nd with | .disconnect _ _ => true | _ => false
+      match infer ex.jetTy p false, (if needCmr then cmrs (fun n => some ((ex.jetCmr n).getD 0)) p else some #[]) with
       | .ok arrows, some cm =>
         let env : Env := { plan := p, arrows := arrows, wit := ex.wit, cmr := cm, jets := ex.jetSem }
         match elabNode env (p.size + 1) (p.size - 1) with
